@@ -55,7 +55,7 @@ impl Dump {
 
 fn math_workloads<B: Fld, E: FieldElement<BaseField = B> + winter_math::ExtensionOf<B>>(d: &mut Dump) {
     let t = type_name::<B, E>();
-    let sizes: &[usize] = if d.small { &[64, 1024, 2048] } else { &[512, 1024, 2048, 4096, 8192] };
+    let sizes: &[usize] = if d.small { &[64, 1024, 2048] } else { &[512, 1024, 2048, 4096, 8192, 32768] };
     for &n in sizes {
         let mut rng = d.rng(&format!("{t}fft{n}"));
         let p = rand_vec::<B, E>(&mut rng, n);
@@ -67,6 +67,21 @@ fn math_workloads<B: Fld, E: FieldElement<BaseField = B> + winter_math::Extensio
         d.put(format!("{t}.evaluate_poly n={n}"), h(&v));
         let ev = fft::evaluate_poly_with_offset(&p, &tw, B::GENERATOR, 4);
         d.put(format!("{t}.evaluate_poly_with_offset n={n} blowup=4"), h(&ev));
+        if !d.small {
+            for blowup in [2usize, 8, 16] {
+                let off = B::GENERATOR.exp((1 + rng.below(1000) as u64).into());
+                let ev = fft::evaluate_poly_with_offset(&p, &tw, off, blowup);
+                d.put(format!("{t}.evaluate_poly_with_offset n={n} blowup={blowup} random offset"), h(&ev));
+            }
+            d.put(format!("{t}.get_inv_twiddles n={n}"), h(&itw));
+            let mut c = v.clone();
+            let off = B::GENERATOR.exp((1 + rng.below(1000) as u64).into());
+            fft::interpolate_poly_with_offset(&mut c, &itw, off);
+            d.put(format!("{t}.interpolate_poly_with_offset n={n} random offset"), h(&c));
+            let mut c = p.clone();
+            fft::serial_fft(&mut c, &tw);
+            d.put(format!("{t}.serial_fft n={n}"), h(&c));
+        }
         let mut c = v.clone();
         fft::interpolate_poly(&mut c, &itw);
         d.put(format!("{t}.interpolate_poly n={n}"), h(&c));
@@ -74,7 +89,7 @@ fn math_workloads<B: Fld, E: FieldElement<BaseField = B> + winter_math::Extensio
         fft::interpolate_poly_with_offset(&mut c, &itw, B::GENERATOR);
         d.put(format!("{t}.interpolate_poly_with_offset n={n}"), h(&c));
     }
-    let lens: &[usize] = if d.small { &[100, 1025] } else { &[1000, 1023, 1024, 1025, 2047, 5000, 16384] };
+    let lens: &[usize] = if d.small { &[100, 1025] } else { &[1000, 1023, 1024, 1025, 1027, 2047, 3001, 5000, 8191, 10007, 16384, 65537] };
     for &n in lens {
         let mut rng = d.rng(&format!("{t}util{n}"));
         let b = rand_el::<B, E>(&mut rng);
@@ -148,6 +163,50 @@ fn matrix_workloads<B: Fld, E: FieldElement<BaseField = B>, H: ElementHasher<Bas
             flat.extend_from_slice(ip.get_column(c));
         }
         d.put(format!("{t}.ColMatrix::interpolate_columns cols={cols} n={n} blowup={blowup}"), h(&flat));
+        let tree = cm.commit_to_rows::<H>();
+        d.put(format!("{t}.ColMatrix::commit_to_rows cols={cols} n={n} blowup={blowup}"), format!("{:016x}", wfv::fnv(&tree.root().as_bytes())));
+        let x = rand_vec::<B, E>(&mut rng, 1)[0];
+        d.put(format!("{t}.ColMatrix::evaluate_columns_at cols={cols} n={n}"), h(&polys.evaluate_columns_at(x)));
+        let ip2 = cm.interpolate_columns_into();
+        let mut flat = Vec::new();
+        for c in 0..cols {
+            flat.extend_from_slice(ip2.get_column(c));
+        }
+        d.put(format!("{t}.ColMatrix::interpolate_columns_into cols={cols} n={n} blowup={blowup}"), h(&flat));
+    }
+}
+
+fn trace_table_workloads<B: Fld>(d: &mut Dump, t: &str) {
+    // (width, length, fragment length)
+    let shapes: &[(usize, usize, usize)] = if d.small { &[(3, 64, 2), (2, 256, 32)] } else { &[(3, 64, 2), (5, 1024, 2), (2, 4096, 64), (17, 2048, 2048), (255, 16, 4), (4, 8192, 1024)] };
+    for &(width, len, frag) in shapes {
+        let mut rng = d.rng(&format!("{t}tracetable{width}x{len}x{frag}"));
+        let k = rand_el::<B, B>(&mut rng);
+        let mut table = winter_prover::TraceTable::<B>::new(width, len);
+        #[cfg(feature = "concurrent")]
+        use winter_utils::iterators::*;
+        table.fragments(frag).for_each(|mut f| {
+            let off = f.offset() as u64;
+            let idx = f.index() as u64;
+            f.fill(
+                |state| {
+                    for (c, s) in state.iter_mut().enumerate() {
+                        *s = k + B::from((off * 31 + c as u64) as u32) + B::from(idx as u32);
+                    }
+                },
+                |step, state| {
+                    for c in 0..state.len() {
+                        let nxt = state[(c + 1) % state.len()];
+                        state[c] = state[c] * state[c] + nxt + B::from(step as u32);
+                    }
+                },
+            );
+        });
+        let mut flat = Vec::new();
+        for c in 0..width {
+            flat.extend_from_slice(table.get_column(c));
+        }
+        d.put(format!("{t}.TraceTable::fragments width={width} len={len} fragment={frag}"), h(&flat));
     }
 }
 
@@ -224,6 +283,10 @@ fn dump(seed: u64, small: bool) -> Vec<String> {
     if !small {
         matrix_workloads::<B64, winter_math::fields::CubeExtension<B64>, Blake3_256<B64>>(&mut d);
         matrix_workloads::<B128, QuadExtension<B128>, Blake3_256<B128>>(&mut d);
+    }
+    trace_table_workloads::<B64>(&mut d, "f64");
+    if !small {
+        trace_table_workloads::<B128>(&mut d, "f128");
     }
     proof_workloads(&mut d);
     d.lines
